@@ -563,6 +563,9 @@ def _gather(ctx):
 def _scatter(ctx):
     """dst[index[i]] = lane i in lane order (the highest lane wins among equal indices); every other element keeps its value"""
     src = ctx.args[0]
+    import os as _os
+    if ctx.w == 8 and _os.environ.get("VERIF_TIER_ACTIVE") == "quick":
+        raise Unsupported("8-bit scatter (256-element window, > 200 s per function) is proved in the thorough tier only")
     mem, idx, K = _gs_args(ctx)
     nb = K * ctx.w // 8
     ctx.requires.append("__CPROVER_w_ok(%s, %d)" % (mem.scalar, nb))
